@@ -129,7 +129,7 @@ CLAIMED = {
              "no unwrap of the handler is reachable for a coherent settings type. Run: histories with arbitrary topics, malformed "
              "JSON, property lengths around 128/32, oversize values; panics caught; final settings compared with an independent "
              "simulator applying only accepted writes.",
-        note="Panics inside minimq are excluded only by the runs. envContract: publish succeeds when can_publish was true.",
+        note="Open known finding F7 (more than ten unacknowledged publications: minimq refuses the eleventh although can_publish() said yes, iter_dump/iter_list unwrap and panic; needs a non-default buffer split) is reported as KNOWN-FINDING by two dedicated histories. Panics inside minimq are excluded only by the runs. envContract: publish succeeds when can_publish was true.",
         tech="Lean 4 proofs (case analysis of the handler) + refinement check against the real client + oracle"),
     "C17": dict(
         text="Lean 4 theorems on a model of the _dispatch state machine shared by async_.py and sync.py, the tail of _do and "
